@@ -33,7 +33,7 @@ pub fn plan(prop: &str) -> Vec<Batch> {
         "C03" => vec![b("a", "C03", 10_000, 250_000, "release")],
         "C04" => vec![b("a", "C04", 10_000, 250_000, "release")],
         "C05" => vec![b("a", "C05", 10_000, 250_000, "release")],
-        "C06" => vec![b("a", "C06", 8_000, 160_000, "release"), b("a", "C06", 4_000, 80_000, "checked")],
+        "C06" => vec![b("a", "C06", 8_000, 130_000, "release"), b("a", "C06", 4_000, 60_000, "checked")],
         "C07" => vec![b("a", "C07", 10_000, 250_000, "release")],
         "C08" => vec![b("a", "C08", 10_000, 250_000, "release")],
         "C09" => vec![b("b", "C09", 40_000, 1_500_000, "release")],
@@ -45,7 +45,7 @@ pub fn plan(prop: &str) -> Vec<Batch> {
         "C15" => vec![b("b", "C15", 40_000, 1_500_000, "release"), b("a", "C15", 5_000, 100_000, "release"), b("b", "C15x", 300, 8_000, "release")],
         "C16" => vec![b("a", "C16", 10_000, 250_000, "release")],
         "C17" => vec![b("a", "C17", 60_000, 1_000_000, "release")],
-        "C18" => vec![b("c", "C18", 3_000, 80_000, "release")],
+        "C18" => vec![b("c", "C18", 3_000, 70_000, "release")],
         _ => vec![],
     }
 }
